@@ -2363,6 +2363,8 @@ fn conc_rand_case(case: u64, rng: &mut Rng, st: &mut Stats, dfs_budget: u64, ran
 // ---------------------------------------------------------------------------------------------
 
 fn main() {
+    // tasks are polled by hand in this binary: see vcore::run::use_plain_block_on
+    vcore::run::use_plain_block_on();
     let mut run = Run::from_args(
         "C07",
         "exploration",
